@@ -573,6 +573,13 @@ pub fn run(ctx: &mut Ctx) {
             check_case(ctx, &src, &stdin, "template");
         }
     });
+    // lists, argument lists and subscript chains around the sizes at which inline buffers spill (C06 compares the
+    // same programs with the model; here they only must not crash)
+    ctx.cases("wide_and_deep", 77, |ctx, _, idx| {
+        if let Some(p) = crate::props::c06::wide_program(idx) {
+            check_case(ctx, &render_plain(&p), b"", "wide_and_deep");
+        }
+    });
     ctx.cases("long_text_templates", TEMPLATES.len() as u64 * 48, |ctx, rng, idx| {
         if let Some((src, _)) = w1b_long(idx) {
             let stdin = stdin_for(rng);
